@@ -345,7 +345,8 @@ abbrev GoodFR (s : Bool) (r : Res (List (Bytes × Val))) : Prop := Res.Sat s (fu
 /-- the sub-expression of a projection maps good values to good outcomes -/
 abbrev GoodFn (s : Bool) (f : Val → Res Val) : Prop := ∀ v, v.Good s = true → GoodR s (f v)
 
-/-- `widen` is the identity on arrays that are not map-ordered, and only re-labels errors otherwise -/
+/-- `widen` is the identity on arrays that are not map-ordered, and otherwise only re-labels errors or turns them
+    into `nondet` -/
 theorem Sat.widen {α} {s : Bool} {P : α → Prop} {t : ATag} {xs : List Val} {fs : List (Val → Res Val)}
     {extra : List Cat} {r : Res α} (ht : tagOk s t = true) (h : Res.Sat s P r) :
     Res.Sat s P (widen t xs fs extra r) := by
@@ -353,7 +354,7 @@ theorem Sat.widen {α} {s : Bool} {P : α → Prop} {t : ATag} {xs : List Val} {
   | err cs =>
     simp only [_root_.Jmes.widen]
     cases s with
-    | false => split <;> exact fun h => Bool.noConfusion h
+    | false => split <;> (try split) <;> first | rfl | exact fun h => Bool.noConfusion h
     | true => rw [enum2_of_tagOk xs ht]; exact h
   | ok a => exact h
   | nondet => exact h
@@ -770,7 +771,7 @@ theorem fromItems_sat {s : Bool} {v : Val} (h : v.Good s = true) : GoodR s (from
     | err cs =>
       simp only []
       cases s with
-      | false => split <;> exact fun h => Bool.noConfusion h
+      | false => split <;> (try split) <;> first | rfl | exact fun h => Bool.noConfusion h
       | true => rw [enum2_of_tagOk xs ht]; exact hl
     | nondet => exact hl
     | panic w => trivial
